@@ -610,6 +610,7 @@ class Poly:
         a = Arr(self.shape, lambda i: self.C(t, i), "real", self.dtype, self.region,
                 None if self._init is None else (lambda i: self.init(t, i)))
         a.snapshot = lambda: (lambda i, f=self.frozenC(): f(t, i))
+        a.colview = (self, t)
 
         def writer(ex_, new_elem, node):
             oldC = self._C
